@@ -1,6 +1,8 @@
 """C09 - division family: quotient within one LSB, exact floor-division and modulo."""
 from . import funcs, ops
 
+from . import routes, fresh, flags, sizes, conv, dtype, carriers, funcs, ops, strings, pipeline, widths
+
 EXPLANATION = (
     "R1 binary-scale typing of _truediv_raw, _floordiv_raw, _mod_raw and the complex kernels: each returns Code<n_frac> for a free n_frac; "
     "R2 quotients are integer floor divisions of codes (no true division inside a raw kernel), remainders are % on equally scaled codes; "
@@ -23,3 +25,7 @@ def run(ck):
     funcs.sizing_record(ck, "C07.R2")
     funcs.results_through_funnel(ck, "C07.R4")
     ops.operator_siblings(ck, "C08.R4", only=("__truediv__", "__rtruediv__", "__floordiv__", "__rfloordiv__", "__mod__", "__rmod__"))
+    sizes.resize_rules(ck, {"nint": "C02.R3"})        # optimal sizes of the division family read x.n_int
+    routes.numpy_dispatch_transparent(ck, "C15.R5")  # np.floor_divide / np.mod / np.divide hand their operands over unconverted
+    carriers.machine_carrier(ck, "C18.R5")            # kernels pre-scale x.val * 2^k in the operand's carrier: it must be the 64-bit one
+    funcs.template_sizes(ck, "C08.R3")
